@@ -198,6 +198,10 @@ func (f *FifoMapCache[K, V]) getCurrentPartition() (*SafeMap[K, V], uint64) {
 	f.currentPartitionMux.RUnlock()
 	f.currentPartitionMux.Lock()
 	defer f.currentPartitionMux.Unlock()
+	// re-check under the write lock: another writer may have opened a new partition between RUnlock and Lock
+	if currentPartition, _ := f.partitions.Peek(f.currentPartitionId); currentPartition != nil && currentPartition.Len() < f.partitionCapacity {
+		return currentPartition, f.currentPartitionId
+	}
 	newPartition := NewSafeMap[K, V](f.partitionCapacity)
 	f.currentPartitionId = f.partitions.Push(newPartition)
 	go f.Sweep()
